@@ -90,7 +90,7 @@ theorem wf_runFrom_finds (env : Env) (fuel d : Nat) (kvs : List (Str × Json)) (
     ∃ state, objGet kvs name = some state ∧ wfState d kvs state = true ∧
       runFrom env (fuel + 1) (.obj kvs) name data ctx r st =
         runState env fuel (.obj kvs) name state data (ctxFor ctx name r) r
-          (st.enter name data r) := by
+          (st.enter (stateType state) name data r) := by
   obtain ⟨state, hs⟩ := defined_get hn
   exact ⟨state, hs, wfScope_get hw hs, by simp [runFrom, hs]⟩
 
@@ -98,12 +98,12 @@ theorem wf_runFrom_finds (env : Env) (fuel d : Nat) (kvs : List (Str × Json)) (
 defined in the same scope (site (b) is not taken) -/
 theorem wf_leave_continues (env : Env) (fuel : Nat) (kvs : List (Str × Json)) (name : Str) (state raw data ctx : Json)
     (r : Nat) (st : St) (hl : leaveOk kvs state = true) :
-    leave env (fuel + 1) (.obj kvs) name state raw data ctx r st = (.done data, st.exit name data) ∨
+    leave env (fuel + 1) (.obj kvs) name state raw data ctx r st = (.done data, st.exit (stateType state) name data) ∨
     leave env (fuel + 1) (.obj kvs) name state raw data ctx r st =
       handleErr env fuel (.obj kvs) name state raw ctx r (S "States.DataLimitExceeded") (S "m") st ∨
     ∃ next, defined kvs next = true ∧
       leave env (fuel + 1) (.obj kvs) name state raw data ctx r st =
-        runFrom env fuel (.obj kvs) next data ctx 0 (st.exit name data) := by
+        runFrom env fuel (.obj kvs) next data ctx 0 (st.exit (stateType state) name data) := by
   by_cases hlen : (render data).length > env.maxData
   · right; left
     by_cases hE : isTrue (fld state "End") = true
